@@ -1,0 +1,94 @@
+//go:build verif
+
+package migration
+
+// Contracts for gocv (contract-based deductive verification, /verif).
+// Bit i of a SchemaVersion says "migration i is applied"; arithmetic is bit-vector exact.
+
+//@ pure func bitOf(v SchemaVersion, i uint8) bool = ((v >> i) & 1) == 1
+
+//@ extern func math/bits.Len64
+//@   ensures x == 0 ==> result == 0
+//@   ensures x != 0 ==> 1 <= result && result <= 64 && (x >> (uint64(result) - 1)) == 1
+
+//@ func (*SchemaVersion).Set
+//@   props C18
+//@   arith bv
+//@   requires sv != nil && index < 64
+//@   modifies *sv
+//@   ensures only_that_bit: forall i uint8 :: i < 64 ==> (bitOf(*sv, i) <==> (i == index || old(bitOf(*sv, i))))
+//@
+//@ func (SchemaVersion).Has
+//@   props C18
+//@   arith bv
+//@   requires index < 64
+//@   ensures result <==> bitOf(sv, index)
+//@
+//@ func (SchemaVersion).Union
+//@   props C18
+//@   arith bv
+//@   ensures forall i uint8 :: i < 64 ==> (bitOf(result, i) <==> (bitOf(sv, i) || bitOf(other, i)))
+//@
+//@ func (SchemaVersion).Difference
+//@   props C18
+//@   arith bv
+//@   ensures forall i uint8 :: i < 64 ==> (bitOf(result, i) <==> (bitOf(sv, i) && !bitOf(other, i)))
+//@
+//@ func (SchemaVersion).Contains
+//@   props C18
+//@   arith bv
+//@   ensures result <==> (forall i uint8 :: i < 64 ==> (bitOf(other, i) ==> bitOf(sv, i)))
+//@
+//@ func (SchemaVersion).HighestBit
+//@   props C18
+//@   arith bv
+//@   ensures none: sv == 0 ==> result == -1
+//@   ensures top: sv != 0 ==> 0 <= result && result < 64 && bitOf(sv, uint8(result)) && (forall i uint8 :: i < 64 && int(i) > int(result) ==> !bitOf(sv, i))
+
+// ---- the runner -------------------------------------------------------------------------
+//@ ghost func errIs(err error, target error) bool
+//@ extern func errors.Is
+//@   ensures result == errIs(err, target)
+//@   ensures err == target && err != nil ==> result
+//@   ensures err == nil && target != nil ==> !result
+//@   ensures err == nil && target == nil ==> result
+
+// What the migration answered (ghost record).
+//@ ghost var migState []byte
+//@ ghost var migErr error
+//@ func (Migration).Migrate
+//@   logged
+//@   assigns migState, migErr
+//@   modifies *
+//@   ensures migState == result0 && migErr == result1
+//@ func (Migration).Before
+//@   logged
+//@   modifies *
+
+// Metadata / intermediate-state accessors only talk to the store (not part of the Go heap model).
+//@ func GetIntermediateState
+//@   trusted
+//@ func WriteIntermediateState
+//@   trusted
+//@   logged
+//@ func DeleteIntermediateState
+//@   trusted
+//@ func WriteSchemaMetadata
+//@   trusted
+//@   logged
+//@ extern func github.com/NethermindEth/juno/db.KeyValueStore.NewBatch
+//@ extern func github.com/NethermindEth/juno/db.Batch.Write
+//@   logged as BatchWrite
+
+// A migration is recorded as applied only after Migrate reported completion (nil state, nil error).
+//@ func (*MigrationRunner).runMigration
+//@   props C18
+//@   arith bv
+//@   requires mr != nil && migrationIndex < 64 && int(migrationIndex) < len(mr.entries)
+//@   modifies *
+//@   assigns migState, migErr, calls_Migrate, calls_Before, calls_WriteIntermediateState, calls_WriteSchemaMetadata, calls_BatchWrite, arg_Before_intermediateState, arg_Migrate_ctx, arg_Migrate_database, arg_Migrate_network, arg_Migrate_logger, arg_WriteIntermediateState_w, arg_WriteIntermediateState_migrationIndex, arg_WriteIntermediateState_state, arg_WriteSchemaMetadata_w, arg_WriteSchemaMetadata_sm
+//@   ensures once: calls_Migrate == old(calls_Migrate) || calls_Migrate == old(calls_Migrate) + 1
+//@   ensures applied_only_if_complete: calls_WriteSchemaMetadata != old(calls_WriteSchemaMetadata) ==> calls_Migrate == old(calls_Migrate) + 1 && migErr == nil && len(migState) == 0 && migState == nil
+//@   ensures applied_bit: calls_WriteSchemaMetadata != old(calls_WriteSchemaMetadata) ==> bitOf(arg_WriteSchemaMetadata_sm.CurrentVersion, migrationIndex)
+//@   ensures state_saved: calls_Migrate == old(calls_Migrate) + 1 && migState != nil && (migErr == nil || result == nil) ==> calls_WriteIntermediateState == old(calls_WriteIntermediateState) + 1 && arg_WriteIntermediateState_state == migState && calls_WriteSchemaMetadata == old(calls_WriteSchemaMetadata)
+//@   ensures nil_means_done_or_saved: result == nil && calls_WriteSchemaMetadata == old(calls_WriteSchemaMetadata) ==> calls_WriteIntermediateState == old(calls_WriteIntermediateState) + 1
